@@ -309,6 +309,28 @@ def equal_section_docs():
         for files in layout:
             calls += C([F(n) for n in files])
         docs.append(calls)
+    # NEAR-equal big contents: same length, same first and last bytes,
+    # one byte different at the start / in the middle / at the end
+    for n in (129, 200, 1000, 70001):
+        base = bytearray((b'+line %04d\n' * (n // 11 + 1))[:n - 1] + b'\n')
+        variants = [bytes(base)]
+        for pos in (1, 64, n // 2, n - 66, n - 2):
+            if 0 < pos < n - 1:
+                v = bytearray(base)
+                v[pos] = ord('X') if v[pos] != ord('X') else ord('Y')
+                variants.append(bytes(v))
+        calls = [['change', None]]
+        for k, d in enumerate(variants):
+            calls += [['file', None], ['meta', {'path': 'same/long/path/to/'
+                                                        'the/file.py'}, None],
+                      ['diff', d, None, None, None]]
+        calls += [['change', None], ['preamble', bytes(base).decode() * 1,
+                                     None, 4, None, None]]
+        for k, d in enumerate(variants[::-1]):
+            calls += [['file', None], ['meta', {'path': 'same/long/path/to/'
+                                                        'the/file.py'}, None],
+                      ['diff', d, None, None, None]]
+        docs.append(calls)
     return docs
 
 
